@@ -53,3 +53,20 @@ def run_cases(exe, lines, batch=300, timeout=40, per_case_timeout=8, workers=4, 
     for r in res:
         out.extend(r)
     return out
+
+
+def cleanup_sockets():
+    """unix-domain socket files of driver processes that were killed (hang/timeout) stay behind;
+    remove those whose process no longer exists"""
+    import glob
+    import os
+    for p in glob.glob("/var/tmp/verif.5.*"):
+        try:
+            pid = int(p.rsplit(".", 1)[1])
+        except ValueError:
+            continue
+        if not os.path.exists("/proc/%d" % pid):
+            try:
+                os.unlink(p)
+            except OSError:
+                pass
